@@ -88,9 +88,10 @@ type c15Gen struct {
 func (g *c15Gen) atom() *Node {
 	switch g.r.Intn(9) {
 	case 0:
-		return Var([]string{"b0", "b1", "b2"}[g.r.Intn(3)], TBool)
+		// (dotted and underscored names are ordinary identifiers)
+		return Var([]string{"b0", "b1", "b2", "u.vip", "_ok"}[g.r.Intn(5)], TBool)
 	case 1, 2:
-		return Var([]string{"i0", "i1", "i2"}[g.r.Intn(3)], TInt)
+		return Var([]string{"i0", "i1", "i2", "acct.level", "n_1"}[g.r.Intn(5)], TInt)
 	case 3:
 		return Lit(g.r.Intn(2) == 0)
 	case 4:
@@ -235,8 +236,8 @@ func c15Run(w *W, idx int) {
 	} else {
 		for k := 0; k < 3; k++ {
 			bs = append(bs, Binding{Vals: map[string]interface{}{
-				"b0": r.Intn(2) == 0, "b1": r.Intn(2) == 0, "b2": r.Intn(2) == 0,
-				"i0": int64(r.Intn(7) - 3), "i1": int64(r.Intn(7) - 3), "i2": int64(r.Intn(3)),
+				"b0": r.Intn(2) == 0, "b1": r.Intn(2) == 0, "b2": r.Intn(2) == 0, "u.vip": r.Intn(2) == 0, "_ok": r.Intn(2) == 0,
+				"i0": int64(r.Intn(7) - 3), "i1": int64(r.Intn(7) - 3), "i2": int64(r.Intn(3)), "acct.level": int64(r.Intn(5)), "n_1": int64(r.Intn(5) - 2),
 			}})
 		}
 	}
